@@ -58,3 +58,14 @@ Theorem C07_item_echo : forall item o,
   end.
 Proof. exact (fun item o => response_item_reports inst_T inst_K item o inst_env_ok). Qed.
 Print Assumptions C07_item_echo.
+
+(* "one at a time or pipelined", and however the transport fragments them: the server's persistent Decoder on its
+   bufio.Reader over a connection that hands out the peer's bytes in ANY script of read sizes (one request per read,
+   several requests in one read, single bytes, a request split anywhere; fewer than 100 consecutive empty reads)
+   produces exactly the trace computed on the flat byte stream - which the theorems above speak about *)
+Require Import Readers ReadersProofs SessionReaders.
+Theorem C07_fragmentation_independent : forall T K c input sizes weof script,
+  stall_free sizes ->
+  c_session_body T K c input sizes weof script = session_body T K c input script.
+Proof. exact session_fragmentation_independent. Qed.
+Print Assumptions C07_fragmentation_independent.
